@@ -120,6 +120,12 @@ OpenStream(n, g, v, lg) ==
 OpenStreamBad(n, g, why) ==
   /\ mode = "idle" /\ Step /\ lastErr' = why
   /\ UNCHANGED <<mode, xref, nextRef, deferred, pos, emitted, cur, written, trailer>>
+\* Put refused for its value (a stream among the elements of an array or the
+\* entries of a dictionary cannot be written as a direct object): nothing is
+\* recorded or written, also while a stream is open (the call is not queued)
+PutBad(n) ==
+  /\ Usable /\ Step /\ lastErr' = "badValue"
+  /\ UNCHANGED <<mode, xref, nextRef, deferred, pos, emitted, cur, written, trailer>>
 OpenWhileOpen == /\ mode = "stream" /\ Step /\ lastErr' = "inStream"
                  /\ UNCHANGED <<mode, xref, nextRef, deferred, pos, emitted, cur, written, trailer>>
 
@@ -240,7 +246,8 @@ Next == \/ Alloc \/ AllocN(2)
         \/ \E n \in ProgNums, g \in {0, 1}, v \in Vals : Put(n, g, v)
         \/ \E n \in ProgNums, g \in {0, 1}, v \in Vals : PutStm(n, g, v)
         \/ \E n \in ProgNums, g \in {0, 1}, v \in Vals, lg \in {"none", "right", "wrong"} : OpenStream(n, g, v, lg)
-        \/ \E n \in ProgNums, why \in {"badLength", "filterVersion"} : OpenStreamBad(n, 0, why)
+        \/ \E n \in ProgNums, why \in {"badLength", "filterVersion", "directStream"} : OpenStreamBad(n, 0, why)
+        \/ \E n \in ProgNums : PutBad(n)
         \/ OpenWhileOpen
         \/ \E k \in {0, 1, 2} : StreamWrite(k)
         \/ CloseStream
